@@ -1,0 +1,11 @@
+//go:build verif
+
+// Contracts for package proofsvalidator, read by /verif/govc (comment-only: no declarations, no effect on any build).
+
+package proofsvalidator
+
+//@ func IsInMembers
+//@   props C02 C08
+//@   ensures [iff] result == (exists i :: 0 <= i && i < len(members) && members[i].Id == memberId)
+//@   loop range members
+//@     invariant [none-so-far] forall i :: 0 <= i && i < $i ==> members[i].Id != memberId
